@@ -102,6 +102,44 @@ claim("C18", "proof", "Lean 4 theorems (assembled row = stencil with ghost-cell 
       COMMON_NOTE + "spsolve/lsmr are external: their output is checked by the residual, never trusted; the 3-d Cartesian "
       "assembly is modelled and compared but its row theorem is not stated separately.", "DESIGN.md section 6, C18")
 
+claim("C03", "proof", "Lean 4 theorems (schedule independence via List.Perm, face-order irrelevance, matrix route = stencil route) + all-routes differential check",
+      "Model-level: interpreted and compiled ghost-cell setters and all operator entry points are one Lean function (BC.setGhostAll "
+      "followed by the Stencil kernel); theorems prove that the order of the faces is irrelevant, that the sparse-matrix route "
+      "equals the stencil route (C18), that the result with or without an out array is the same function of the input, and "
+      "that a kernel whose iterations write pairwise distinct cells and read only the input yields the serial result under "
+      "every permutation and every chunking of the iteration order (the schedules quantifier); extractor E2 re-establishes on "
+      "every run, by an ast walk over the numba operator sources, that every nb.prange loop has exactly this shape. The check "
+      "evaluates every case through all public routes (field methods, make_operator numba/scipy, no-bc operator after the "
+      "interpreted and after the compiled setter, sparse matrix, out=, source semantics and JIT) - pairwise within 1e-10 and "
+      "equal to the model over exact rationals - and runs kernels above a lowered multithreading threshold with 1, 2 and 16 "
+      "threads (bit-identical).",
+      COMMON_NOTE + "Partial: the real numba/TBB thread scheduler is runtime behaviour the model cannot exhibit; it is validated "
+      "by the multi-thread runs only.", "DESIGN.md section 6, C03")
+
+claim("C16", "proof", "Lean 4 theorems about the interpolation index/weight selection and the inserters + model/code correspondence",
+      "get_axis_data (periodic wrap, boundary strips, ghost-cell mode, out-of-bounds signal, weight clipping as parameter), the "
+      "1/2/3-axis interpolators, the interpreted insert (renormalisation) and the compiled inserters (incl. the ghost-cell "
+      "variant) are modelled branch by branch; 54 theorems: weights non-negative summing to one, indices in range, exact at "
+      "centres, multilinear between centres, exact on affine data, within the data range, periodic seam, outside rejected / "
+      "inside accepted, nearest value in boundary strips, linear approach to the boundary value in ghost mode, insertion "
+      "conserves the amount for any cell volumes (interpreted: any number of axes; compiled: 1-3 axes), interpreted = compiled "
+      "for interior points. ~120k comparisons of real results (source semantics and JIT) with the model at Rat per quick run, "
+      "independent reference-interpolant monitors.",
+      COMMON_NOTE + "Theorems fixing exact weights assume the clipping constant eps <= 0; for eps = 1e-15 per-weight bounds are "
+      "proved; ghost-mode inserter conservation proved for 1 and 2 axes.", "DESIGN.md section 6, C16; notes/C16.md")
+
+claim("C17", "proof", "Lean 4 theorems (tiling, extract/combine identities, neighbour symmetry, operator commutes with split) + exhaustive small decompositions",
+      "Chunk bookkeeping of GridMesh is modelled for any list of positive chunk sizes meeting the contract (plus the reference "
+      "formula): per-axis slices with/without ghost cells, id<->index, neighbours with periodic wrap, extract/combine on arrays, "
+      "sub-grid bounds, MPI boundary read/write indices, error outcomes. 43 theorems: slices tile (disjoint cover) in any "
+      "dimension, bounds/volumes add up, combine o extract = id and extract o combine = id (with the necessary overlap "
+      "hypothesis in ghost mode), neighbour symmetry and periodicity, every radius-1 stencil commutes with the split when ghost "
+      "cells come from the base padded array, ghost exchange, admissibility. The harness enumerates all decompositions of "
+      "small grids exhaustively against the model and runs the operator equivalence through a serial emulation of the MPI "
+      "mailbox with the real extract_boundary_conditions/_MPIBC/to_subgrid.",
+      COMMON_NOTE + "Partial: MPI transport (mpi4py absent) is emulated serially, not modelled; operator bodies belong to C01.",
+      "DESIGN.md section 6, C17; notes/C17.md")
+
 # properties not (yet) decided by the machinery
 NOT_APPLICABLE = {}
 
